@@ -161,7 +161,7 @@ Error RACFGBuilder::on_instruction(InstNode* inst, InstControlFlow& cf, RAInstBu
       RegMask instruction_allowed_regs = 0xFFFFFFFFu;
 
       uint32_t consecutive_offset = 0;
-      RAWorkId consecutive_lead_id = kBadWorkId;
+      RAWorkReg* consecutive_lead_reg = nullptr;
       RAWorkReg* consecutive_parent = nullptr;
 
       if (inst_info.is_evex()) {
@@ -291,7 +291,7 @@ Error RACFGBuilder::on_instruction(InstNode* inst, InstControlFlow& cf, RAInstBu
 
             if (op_rw_info.consecutive_lead_count()) {
               // There must be a single consecutive register lead, otherwise the RW data is invalid.
-              if (consecutive_lead_id != kBadWorkId) {
+              if (consecutive_lead_reg != nullptr) {
                 return make_error(Error::kInvalidState);
               }
 
@@ -301,7 +301,7 @@ Error RACFGBuilder::on_instruction(InstNode* inst, InstControlFlow& cf, RAInstBu
               }
 
               flags |= RATiedFlags::kLeadConsecutive | RATiedReg::consecutive_data_to_flags(op_rw_info.consecutive_lead_count() - 1);
-              consecutive_lead_id = work_reg->work_id();
+              consecutive_lead_reg = work_reg;
 
               RegMask filter = ra_consecutive_lead_count_to_reg_mask_filter[op_rw_info.consecutive_lead_count()];
               if (Support::test(flags, RATiedFlags::kUse)) {
@@ -321,11 +321,11 @@ Error RACFGBuilder::on_instruction(InstNode* inst, InstControlFlow& cf, RAInstBu
                 flags |= RATiedFlags::kUseFixed;
               }
               else if (op_rw_info.has_op_flag(OpRWFlags::kConsecutive)) {
-                if (consecutive_lead_id == kBadWorkId) {
+                if (consecutive_lead_reg == nullptr) {
                   return make_error(Error::kInvalidState);
                 }
 
-                if (consecutive_lead_id == work_reg->work_id()) {
+                if (consecutive_lead_reg == work_reg) {
                   return make_error(Error::kOverlappedRegs);
                 }
 
@@ -339,11 +339,11 @@ Error RACFGBuilder::on_instruction(InstNode* inst, InstControlFlow& cf, RAInstBu
                 flags |= RATiedFlags::kOutFixed;
               }
               else if (op_rw_info.has_op_flag(OpRWFlags::kConsecutive)) {
-                if (consecutive_lead_id == kBadWorkId) {
+                if (consecutive_lead_reg == nullptr) {
                   return make_error(Error::kInvalidState);
                 }
 
-                if (consecutive_lead_id == work_reg->work_id()) {
+                if (consecutive_lead_reg == work_reg) {
                   return make_error(Error::kOverlappedRegs);
                 }
 
